@@ -598,6 +598,35 @@ func runC03(c *core.Ctx) {
 			c.Sample(map[string]any{"part": "random", "food.yaml": clip(w.BookText, 600), "log.yaml": clip(w.LogText, 600), "element": x})
 		}
 	})
+	// element names that share a prefix and go on with '/' in one and with a character that sorts before '/' in the
+	// other (fat/saturated, fat-trans, fat.free, "fat (total)"): each is an element of its own, wherever a sorted
+	// list puts it
+	{
+		srv := pool.Servers[0]
+		els := []string{"fat", "fat/saturated", "fat-trans", "fat.free", "fat (total)", "fat+", "fat!", "fat/saturated/x", "fat0"}
+		book := "snack/bar:\n"
+		for k, e := range els {
+			book += fmt.Sprintf("  %s: %d\n", e, k+2)
+		}
+		book += "other/thing:\n  fat-trans: 1\n  fat/saturated: 1\n"
+		files := map[string]string{"food.yaml": book, "log.yaml": "2021/01/01:\n  snack/bar: 2\n  other/thing: 3\n"}
+		srv.Write(files)
+		for k, e := range els {
+			amt := map[string]*big.Rat{"snack/bar": big.NewRat(int64(2*(k+2)), 1)}
+			if e == "fat-trans" || e == "fat/saturated" {
+				amt["other/thing"] = big.NewRat(3, 1)
+			}
+			abs := map[string]*big.Rat{}
+			var foods []string
+			for f, v := range amt {
+				abs[f] = v
+				foods = append(foods, f)
+			}
+			sort.Strings(foods)
+			checkBal(c, srv, balCase{files: files, amounts: amt, abs: abs, element: e, exact: true, foods: foods, label: "element names around the path separator, -s " + e})
+			c.Count("single_element_balances_for_names_around_the_separator", 1)
+		}
+	}
 	// the balance of a request served by an application value that has served other requests before
 	reusedApp(c, pool, c.N(200, 2500), nestedBalShape)
 	jobs, deaths := pool.Stats()
